@@ -663,3 +663,75 @@ func TestHighResolution(t *testing.T) {
 		rec.Sample("highres", map[string]any{"cells": cells, "a": s.a, "b": s.b, "radius": r, "triangles": len(ts)})
 	})
 }
+
+// ---------------------------------------------------------------------------
+// several bodies into ONE triangle writer (sdf.NewTriangle3Buffer), one after the other or side by side:
+// what arrives is the union of the meshes, so it must be closed as well and enclose the sum of the volumes.
+
+func TestBodiesIntoOneWriter(t *testing.T) {
+	rec := ev.Get()
+	rapid.Check(t, func(t *rapid.T) {
+		r := rapid.SampledFrom(renderers).Draw(t, "renderer")
+		nb := rapid.IntRange(2, 4).Draw(t, "bodies")
+		together := rapid.Bool().Draw(t, "side-by-side")
+		cells := rapid.IntRange(8, ev.Pick(28, 48)).Draw(t, "cells")
+		var bodies []sdf.SDF3
+		desc := ""
+		for i := 0; i < nb; i++ {
+			rad := g.Length(t, fmt.Sprintf("r%d", i), 0.5, 3)
+			sp, _ := sdf.Sphere3D(rad)
+			c := v3.Vec{X: 10 * float64(i), Y: g.Coord(t, fmt.Sprintf("y%d", i), 3), Z: g.Coord(t, fmt.Sprintf("z%d", i), 3)}
+			bodies = append(bodies, sdf.Transform3D(sp, sdf.Translate3d(c)))
+			desc += fmt.Sprintf("sphere(%g)@%v ", rad, c)
+		}
+		ch := make(chan []*sdf.Triangle3)
+		var all []*sdf.Triangle3
+		done := make(chan struct{})
+		go func() {
+			defer close(done)
+			for ts := range ch {
+				all = append(all, ts...)
+			}
+		}()
+		w := sdf.NewTriangle3Buffer(ch)
+		if together {
+			var wg sync.WaitGroup
+			for _, b := range bodies {
+				wg.Add(1)
+				go func(b sdf.SDF3) { defer wg.Done(); r.mk(cells).Render(b, w) }(b)
+			}
+			wg.Wait()
+		} else {
+			for _, b := range bodies {
+				r.mk(cells).Render(b, w)
+			}
+		}
+		w.Close()
+		close(ch)
+		<-done
+		// the reference: every body alone
+		want, wantTris := 0.0, 0
+		h := math.Inf(1)
+		for _, b := range bodies {
+			ts := render.ToTriangles(b, r.mk(cells))
+			wantTris += len(ts)
+			want += mesh.Analyze3(ts, 1e-9).Volume
+			h = math.Min(h, b.BoundingBox().Size().MaxComponent()/float64(cells))
+		}
+		for _, tr := range all {
+			if tr == nil {
+				rec.Violation(t, "MarchingCubes:"+r.name+":shared-writer:nil-triangle", "%d bodies (%s), side by side=%v: the writer delivered a nil triangle", nb, desc, together)
+				return
+			}
+		}
+		rep := mesh.Analyze3(all, 1e-6*h)
+		if len(all) != wantTris {
+			rec.Violation(t, "MarchingCubes:"+r.name+":shared-writer:triangle-count", "%d bodies (%s), side by side=%v, %d cells: %d triangles arrived, the bodies alone give %d", nb, desc, together, cells, len(all), wantTris)
+		} else if rep.OpenEdges > 0 {
+			rec.Violation(t, "MarchingCubes:"+r.name+":shared-writer:open-edge", "%d bodies (%s), side by side=%v, %d cells: %d directed edges without a reverse edge", nb, desc, together, cells, rep.OpenEdges)
+		} else if math.Abs(rep.Volume-want) > 1e-9*math.Abs(want) {
+			rec.Violation(t, "MarchingCubes:"+r.name+":shared-writer:volume", "%d bodies (%s), side by side=%v: enclosed volume %v, sum over the bodies %v", nb, desc, together, rep.Volume, want)
+		}
+		rec.Case(true, ev.Key("one-writer", r.name, desc, cells, together), "one-writer:"+r.name, fmt.Sprintf("one-writer:side-by-side=%v", together))
+	})
+}
